@@ -180,6 +180,18 @@ func c03Cases(thorough bool, emit func(spellCase)) {
 			}
 		}
 	}
+	// the empty string in every quoted role, before every follower (a following number must still lex)
+	for _, ro := range roles {
+		for _, f := range followers {
+			if (ro.name == "starts-with" || ro.name == "datetime-template") && !f.plain {
+				continue
+			}
+			emit(spellCase{"empty-string/" + ro.name, ro.text(`""`) + f.text, Path{E: f.wrap(ro.want(""))}})
+		}
+	}
+	emit(spellCase{"empty-string/then-numbers", `$."" ? (@ != "")[1 to 2]`, Path{E: eRoot(sKey(""), sFilter(eCmp("!=", eCur(), eStr(""))), sIndex(subR(eInt(1), eInt(2))))}})
+	emit(spellCase{"empty-string/then-numbers", `$"" + 1.5 * 0x10`, Path{E: eArith("+", eVar(""), eArith("*", eNum(1.5), eInt(16)))}})
+	emit(spellCase{"empty-string/then-numbers", `"" == 1`, Path{E: eCmp("==", eStr(""), eInt(1))}})
 	// literal escape \c for every other ASCII c
 	for c := rune(0x21); c < 0x7f; c++ {
 		if strings.ContainsRune("bfnrtvxu", c) {
@@ -291,6 +303,13 @@ func c03Cases(thorough bool, emit func(spellCase)) {
 					continue
 				}
 				emit(spellCase{"number/" + pos.name, pos.text(n.text) + f.text, Path{E: want}})
+			}
+		}
+		if n.isInt && len(n.text) > 2 && n.text[0] == '0' && strings.ContainsRune("xXoObB", rune(n.text[1])) {
+			// a radix-prefixed integer may be followed directly by an accessor
+			for _, st := range []*Expr{sMethod("type"), sKey("b"), sAnyKey(), sAny(0, -1)} {
+				emit(spellCase{"number/radix-then-accessor", n.text + st.stepText(), Path{E: eInt(n.i).withSteps(st)}})
+				emit(spellCase{"number/radix-then-accessor", "-" + n.text + st.stepText(), Path{E: eNeg(eInt(n.i).withSteps(st))}})
 			}
 		}
 		if n.isInt && n.i < 1<<31 {
@@ -535,6 +554,17 @@ func c03SyntaxCases(thorough bool, emit func(spellCase)) {
 		emit(spellCase{"precedence/filter", "$ ? (" + minText(p) + ")", Path{E: f}})
 		emit(spellCase{"precedence/filter", "$?(" + minText(p) + ")", Path{E: f}})
 		emit(spellCase{"precedence/predicate-item", "(" + minText(p) + ").type()", Path{E: p.withSteps(sMethod("type"))}})
+		// a predicate followed by accessors used as an operand of another operation
+		pt := p.withSteps(sMethod("type"))
+		ps := p.withSteps(sMethod("string"))
+		for _, e := range []*Expr{
+			eCmp("==", pt, eStr("boolean")), eCmp("!=", eStr("boolean"), pt), eArith("+", p.withSteps(sMethod("size")), eInt(1)), eArith("*", eInt(2), p.withSteps(sMethod("size"))),
+			eNeg(p.withSteps(sMethod("size"))), eRoot(sIndex(sub1(p.withSteps(sMethod("size"))))), eRoot(sIndex(subR(eInt(0), p.withSteps(sMethod("size"))))),
+			eExists(pt), eStartsWith(ps, eStr("t")), eLikeRegex(ps, "^t", ""), eNot(eCmp("==", pt, eStr("boolean"))), eIsUnknown(eCmp("==", pt, eStr("boolean"))),
+			eAnd(eCmp("==", pt, eStr("boolean")), eExists(ps)), eRoot(sFilter(eCmp("==", pt, eStr("boolean")))), eCmp("==", pt, eStr("boolean")).withSteps(sMethod("type")),
+		} {
+			emit(spellCase{"precedence/predicate-item-as-operand", e.text(), Path{E: e}})
+		}
 		emit(spellCase{"precedence/strict", "strict " + minText(p), Path{Strict: true, E: p}})
 		emit(spellCase{"precedence/lax", "lax " + minText(p), Path{E: p}})
 	}
